@@ -283,4 +283,38 @@ def countM (env : Env) : List Restr → Value → Nat
   | c :: cs, x => (if mtch env c x then 1 else 0) + countM env cs x
 end
 
+/-! ## building a boolean node step by step (`finalize=False`, `add_restriction`, `finalize`)
+
+The state of a node under construction is its `restrictions` (a list until finalized, then a tuple), and the `_hash`
+slot filled by `cached_hash`.  `__hash__` raises `TypeError` ("isn't finalized") while `restrictions` is a list, so the
+slot can only be filled once the children are final; `add_restriction` raises `TypeError` on a finalized node (a tuple
+has no `extend`) and when called without arguments. -/
+structure Builder where
+  cs : List Restr
+  finalized : Bool
+  cached : Option HK
+
+inductive BOp where
+  | hash                       -- hash(node): dict key, set member, argument of an instance-cached parent, …
+  | add (rs : List Restr)      -- node.add_restriction(*rs)
+  | finalize                   -- node.finalize()
+
+/-- one call; the `Bool` is `false` when the call raises `TypeError` (the node is then unchanged) -/
+def bstep (k : Kind) (t : Nat) (n : Bool) (b : Builder) : BOp → Builder × Bool
+  | .hash =>
+    match b.cached with
+    | some _ => (b, true)                                             -- cached_hash: the stored value
+    | none =>
+      if b.finalized then ({ b with cached := some (hashKey (.bool k t n b.cs)) }, true)
+      else (b, false)                                                 -- TypeError: isn't finalized
+  | .add rs =>
+    if rs.isEmpty then (b, false)                                     -- TypeError: need at least one restriction
+    else if b.finalized then (b, false)                               -- TypeError: is finalized
+    else ({ b with cs := b.cs ++ rs }, true)
+  | .finalize => ({ b with finalized := true }, true)
+
+def brun (k : Kind) (t : Nat) (n : Bool) : Builder → List BOp → Builder
+  | b, [] => b
+  | b, op :: ops => brun k t n (bstep k t n b op).1 ops
+
 end Pkgcore.C07
